@@ -414,6 +414,22 @@ func exprMentions(x *Expr, names map[string]bool) bool {
 	return false
 }
 
+// taggedRequiresFor: the contract has a precondition tagged with one of the
+// given properties that is not active in the current check.
+func taggedRequiresFor(con *Contract, props []string) bool {
+	for _, rq := range con.Requires {
+		if len(rq.Props) == 0 || clauseActive(rq) {
+			continue
+		}
+		for _, p := range props {
+			if hasProp(rq.Props, p) {
+				return true
+			}
+		}
+	}
+	return false
+}
+
 // callContract is a modular call: requires become obligations of the caller,
 // the frame is havocked, ensures are assumed.
 func (e *Enc) callContract(fr *Frame, ct callTarget, args []Val, common *ssa.CallCommon, st *State, reach Term, pos token.Pos) (Val, *State) {
@@ -477,7 +493,7 @@ func (e *Enc) callContract(fr *Frame, ct callTarget, args []Val, common *ssa.Cal
 	}
 	// requires
 	for k, rq := range con.Requires {
-		if exprMentions(rq.Expr, ghostNames) {
+		if exprMentions(rq.Expr, ghostNames) || !clauseActive(rq) {
 			continue
 		}
 		ctx := mkctx(pre, nil)
@@ -517,6 +533,11 @@ func (e *Enc) callContract(fr *Frame, ct callTarget, args []Val, common *ssa.Cal
 			lemmaEns = append(lemmaEns, en)
 			continue
 		}
+		if !clauseActive(en) && taggedRequiresFor(con, en.Props) {
+			// proved (under its own properties' checks) from preconditions that
+			// this property's check does not establish at this call site
+			continue
+		}
 		ctx := mkctx(post, results)
 		for _, l := range con.Lets {
 			ctx.names[l.Name] = e.compile(ctx.with(pre), l.Expr)
@@ -540,6 +561,36 @@ func (e *Enc) callContract(fr *Frame, ct callTarget, args []Val, common *ssa.Cal
 			es = append(es, e.compileBool(ctx, en.Expr))
 		}
 		e.B.assume(implies(reach, fmt.Sprintf("(forall (%s) %s)", strings.Join(qs, " "), implies(and(rs...), and(es...)))))
+		// the instance the caller's contract names (at call <callee>#n ghost x = e):
+		// an instance of the quantified fact above, stated so that the solvers need
+		// not guess it
+		if fr.con != nil && len(fr.con.GhostArgs) > 0 {
+			short := callee
+			if i := strings.LastIndex(callee, "."); i >= 0 {
+				short = callee[i+1:]
+			}
+			ictx := mkctx(post, results)
+			found := 0
+			for _, ga := range fr.con.GhostArgs {
+				if (ga.Callee != callee && ga.Callee != short) || (ga.N != 0 && ga.N != fr.callIdx[callee]) {
+					continue
+				}
+				cctx := e.frameCtx(fr, pre, fr.curBlock, fr.curIdx, nil)
+				cctx.what = "ghost argument " + ga.Name + " at call " + callee
+				ictx.names[ga.Name] = e.compile(cctx, ga.Clause.Expr)
+				found++
+			}
+			if found == len(con.Ghosts) {
+				var rs2, es2 []Term
+				for _, rq := range lemmaReq {
+					rs2 = append(rs2, e.compileBool(ictx.with(pre), rq.Expr))
+				}
+				for _, en := range lemmaEns {
+					es2 = append(es2, e.compileBool(ictx, en.Expr))
+				}
+				e.B.assume(implies(reach, implies(and(rs2...), and(es2...))))
+			}
+		}
 	}
 	e.copyOutFor(fr, post)
 	return res, post
@@ -1180,6 +1231,10 @@ func (e *Enc) encodeAppend(fr *Frame, common *ssa.CallCommon, args []Val, st *St
 	} else {
 		e.B.assume(fmt.Sprintf("(forall ((%s Int)) (! (=> (and (<= 0 %s) (< %s (slen %s))) (= (select %s %s) (select (select %s (sarr %s)) (+ (soff %s) %s)))) :pattern ((select %s %s))))",
 			qi, qi, qi, s.T, na, qi, h, s.T, s.T, qi, na, qi))
+	}
+	if addIsSlice {
+		e.appendSumFacts(es, na, fmt.Sprintf("(select %s (sarr %s))", h, s.T), "(soff "+s.T+")", "(slen "+s.T+")",
+			fmt.Sprintf("(select %s (sarr %s))", h, add.T), "(soff "+add.T+")", "(slen "+add.T+")")
 	}
 	// the same facts triggered from the operands' side: every element of the old
 	// slice (and of the appended one) is found in the result
